@@ -21,4 +21,7 @@ def plan(tier, seed):
         for first in range(len(HC.ACTIONS)):
             parts.append(Part("vt.harness.cont", "seq", {"drv": drv, "k": k, "first": first, "init": first % 2, "c20": 1}, 900 if tier == "quick" else 8000, 300,
                               "schema/package records exactly for schemas in use; embedded schema, parent chain, provider == plugin system; objects validate against the embedded schema; same after reopen"))
+    import vt.contactions as _CA
+    for sel in _CA.mirror_sels():
+        parts.append(Part("vt.harness.cont", "seq", dict(sel, **{"c20": 1}), 900 if tier == "quick" else 3000, 300, "container level, mirrored names (g/g/e2 exists, g/e2 free): operations through sub-group handles resolve relative targets against the handle on both drivers", weight=2))
     return parts
